@@ -30,7 +30,14 @@ RULE = (
     "parities x flipped x side length x (x_offset,y_offset) menu, each examined as CoordinateArrayTriangles, as the "
     "ArrayTriangles of the same set, one and two operations deep (up_sample / neighborhood chains) and after an affine "
     "with_vertices; every index selection (ordered, without repetition, size 0..3) when the set has <=6 "
-    "triangles; (shape) the same subsets x 7x7 reference-point lattice x 9 shapes; (limits) for_limits_and_scale menu "
+    "triangles; (arrep) the same subsets written directly as ArrayTriangles(indices, vertices) on an integer vertex "
+    "lattice: vertex arrays of dtype int64 / int32 / integer-valued float32 (identity and a skew integer map, so that "
+    "midpoints are half-integers) under the up_sample / for_indexes / containment laws, and read-then-derive histories "
+    "inside the one case (each of 10 reads of a set, then with_vertices / for_indexes, derived set and parent re-observed "
+    "in rotating order; a second derivation from the derived, already read set); "
+    "(shape) the same subsets x 7x7 reference-point lattice x 9 shapes, plus squares of half extents "
+    "{(0.52,0.52),(0.45,0.65),(0.65,0.45)} x side centred 6% inside every vertex and (0.2,0.35) x side 6% inside every edge "
+    "midpoint of every triangle (at most 9 anchor triangles per set); (limits) for_limits_and_scale menu "
     "for both representations with the same laws. non-trivial = the set holds triangles of both orientations and at "
     "least two that share an edge (so parity branches and de-duplication both matter); for shape cases = some "
     "reference point lies strictly inside a triangle and some lies outside all of them"
@@ -48,6 +55,11 @@ ASSUMPTIONS = [
     "ArrayTriangles may list a geometric triangle more than once (round-off distinct vertices); only the set of "
     "distinct geometric triangles is compared, duplicates are recorded in the outcome census, not flagged",
     "reference points within 1e-6 (barycentric) of a triangle edge are undecided for that triangle and skipped",
+    "integer and integer-valued float32 vertex arrays are legitimate vertex arrays: all their midpoints are multiples of "
+    "1/2 and exact in float32 and float64 alike, so the exact-midpoint law is demanded with the same 1e-9 tolerance",
+    "a set derived with with_vertices / for_indexes is described by the vertices / selection it was given, whatever was "
+    "read from its parent before (triangles, area, containing_indices, len, means, up_sample, neighborhood, for_indexes, "
+    "iteration); the parent keeps describing its own vertices (with_vertices is documented to create a new set)",
     "checks that read the statement slightly generously, each under its own finding class so it can be adjudicated "
     "separately: for_indexes keeps the order of the selection (:order); a bare Point is not reported for triangles it "
     "is strictly outside of (Point:spurious); CoordinateArrayTriangles.neighborhood lists no triangle twice "
@@ -58,10 +70,12 @@ ASSUMPTIONS = [
 BOUNDS = {
     "quick": "coord: 511 subsets of a 3x3 window x origins {(-1,-1),(0,-1)} x flipped {F,T} x side {1,0.5} x offsets "
     "{(0,0),(0.3,-0.7),seeded}; chains of depth 2; all ordered index selections of size<=3 on sets of <=6 triangles; "
+    "arrep: 511 subsets x 2 origins x {int64, int32, float32 identity map, int64 skew map} + 10 read kinds x "
+    "{with_vertices, parent, second with_vertices, for_indexes}; "
     "shape: 511 subsets x 2 origins x {(unflipped, side 1, no offset), (flipped, side 0.5, seeded offsets)} x 49 reference points x 9 shapes x 2 "
-    "representations; limits: 12 limit boxes x 3 scales x 2 representations",
+    "representations + <=108 vertex/edge-anchored squares per set; limits: 12 limit boxes x 3 scales x 2 representations",
     "thorough": "coord: 511 subsets of a 3x3 window x 4 origins + 4095 subsets of a 4x3 window x 2 origins, x flipped "
-    "x side {1,0.5,seeded} x 4 offsets; shape: 511 subsets x 4 origins x flipped x 4 (side,offset) combos; limits: 12 boxes x 5 scales",
+    "x side {1,0.5,seeded} x 4 offsets; arrep: 511 subsets x 4 origins; shape: 511 subsets x 4 origins x flipped x 4 (side,offset) combos; limits: 12 boxes x 5 scales",
 }
 
 # --------------------------------------------------------------------------------------------- domains
@@ -91,15 +105,15 @@ def cases(tier, seed):
                         for (sd, a, b) in [(1.0, 0.0, 0.0), (0.5, sx, sy), (sside, 0.3, -0.7), (1.0, -sy * 3.0, sx * 5.0)]]
         scales = [0.7, 1.0, round(0.35 + 0.3 * sside / 2.0, 4), 0.45, 1.6]
 
-    # (coord) simplest first: by number of triangles
+    # simplest first: by number of triangles; the three kinds of case of one subset are interleaved so that a run cut
+    # short by a wall-clock budget has still seen every kind on all the small sets
     for bits in _subsets(9):
         for (ox, oy) in origins:
+            yield ["arrep", 3, 3, ox, oy, bits, int(seed)]
             for fl in (0, 1):
                 for side in sides:
                     for (xo, yo) in offsets:
                         yield ["coord", 3, 3, ox, oy, bits, fl, side, xo, yo, int(seed)]
-    for bits in _subsets(9):
-        for (ox, oy) in origins:
             for (fl, side, xo, yo) in shape_params:
                 yield ["shape", 3, 3, ox, oy, bits, fl, side, xo, yo, int(seed)]
     boxes = [  # (y_min, y_max, x_min, x_max)
@@ -258,15 +272,16 @@ def check_area_property(v, rep, obj, tris):
          lambda: "%s.area=%r but sum of shoelace areas of its %d triangles=%r" % (rep, got, len(tris), want))
 
 
-def check_up_sample(v, rep, parents, up, tol, lattice):
-    """up = parent.up_sample(); parents = (N,3,2) triangles of the parent object."""
+def check_up_sample(v, rep, parents, up, tol, lattice, sfx=""):
+    """up = parent.up_sample(); parents = (N,3,2) triangles of the parent object; sfx = input-class suffix of the
+    finding ids (e.g. ':int-dtype')."""
     N = len(parents)
     up_tr = tris_of(up)
     up_vx = np.asarray(up.vertices, float).reshape(-1, 2)
     ref = ref_children(parents)
     ids = cluster_ids([parents, ref, up_tr, up_vx], tol)
     if ids is None:
-        v.fail("%s.up_sample:non-finite" % rep, "non-finite vertex in up-sampled set")
+        v.fail("%s.up_sample:non-finite%s" % (rep, sfx), "non-finite vertex in up-sampled set")
         return None
     pk, ek, okk = tri_keys(ids[0]), tri_keys(ids[1]), tri_keys(ids[2])
     P, E, O = set(pk), set(ek), set(okk)
@@ -275,14 +290,14 @@ def check_up_sample(v, rep, parents, up, tol, lattice):
     if rep == "coord":
         v.ok(len(up) == 4 * N and up_tr.shape[0] == 4 * N, "coord.up_sample:count",
              lambda: "len(parent)=%d len(up_sample)=%d rows=%d" % (N, len(up), up_tr.shape[0]))
-    v.ok(len(O) == 4 * len(P), "%s.up_sample:count" % rep,
+    v.ok(len(O) == 4 * len(P), "%s.up_sample:count%s" % (rep, sfx),
          lambda: "%d distinct parents -> %d distinct children (want %d)" % (len(P), len(O), 4 * len(P)))
 
     missing = [i for i, k in enumerate(ek) if k not in O]
     extra = [i for i, k in enumerate(okk) if k not in E]
     if missing:
         i = missing[0]
-        cls = "%s.up_sample:children" % rep
+        cls = "%s.up_sample:children%s" % (rep, sfx)
         if lattice:
             cls += ":%s-parent" % orientation(parents[i // 4])
         v.fail(cls, "parent %s: expected child %s (kind %s) absent; %d expected children missing, %d unexpected present e.g. %s"
@@ -290,33 +305,33 @@ def check_up_sample(v, rep, parents, up, tol, lattice):
                   ["corner0", "corner1", "corner2", "centre"][i % 4], len(missing), len(extra),
                   np.round(up_tr[extra[0]], 6).tolist() if extra else None))
     elif extra:
-        v.fail("%s.up_sample:children:extra" % rep, "%d triangles that are no midpoint child of any parent, e.g. %s"
+        v.fail("%s.up_sample:children:extra%s" % (rep, sfx), "%d triangles that are no midpoint child of any parent, e.g. %s"
                % (len(extra), np.round(up_tr[extra[0]], 6).tolist()))
     else:
-        v.ok(True, "%s.up_sample:children" % rep)
+        v.ok(True, "%s.up_sample:children%s" % (rep, sfx))
 
     pa, ca = shoelace(parents), shoelace(up_tr)
     if not dup and len(pk) == len(P):
-        v.ok(rel_close(ca.sum(), pa.sum()), "%s.up_sample:area" % rep,
+        v.ok(rel_close(ca.sum(), pa.sum()), "%s.up_sample:area%s" % (rep, sfx),
              lambda: "total area %r -> %r" % (float(pa.sum()), float(ca.sum())))
         if len(ca) == 4 * N:
             want = np.sort(np.repeat(pa / 4.0, 4))
-            v.ok(bool(np.allclose(np.sort(ca), want, rtol=REL, atol=0.0)), "%s.up_sample:area" % rep,
+            v.ok(bool(np.allclose(np.sort(ca), want, rtol=REL, atol=0.0)), "%s.up_sample:area%s" % (rep, sfx),
                  lambda: "child areas %s are not a quarter of the parent areas %s" % (np.sort(ca)[:8].tolist(), pa[:2].tolist()))
     else:  # duplicates in the array form: compare the distinct geometric triangles only
         first_p = {k: i for i, k in reversed(list(enumerate(pk)))}
         first_c = {k: i for i, k in reversed(list(enumerate(okk)))}
         sp = float(sum(pa[i] for i in first_p.values()))
         sc = float(sum(ca[i] for i in first_c.values()))
-        v.ok(rel_close(sc, sp), "%s.up_sample:area" % rep, lambda: "distinct-triangle area %r -> %r" % (sp, sc))
+        v.ok(rel_close(sc, sp), "%s.up_sample:area%s" % (rep, sfx), lambda: "distinct-triangle area %r -> %r" % (sp, sc))
     check_area_property(v, rep, up, up_tr)
 
     pv = set(np.asarray(ids[0]).ravel().tolist())
     uv = set(np.asarray(ids[3]).ravel().tolist())
-    v.ok(pv <= uv, "%s.up_sample:vertices" % rep,
+    v.ok(pv <= uv, "%s.up_sample:vertices%s" % (rep, sfx),
          lambda: "%d of %d parent vertices are no longer in .vertices" % (len(pv - uv), len(pv)))
     tv = set(np.asarray(ids[2]).ravel().tolist())
-    v.ok(tv <= uv, "%s.up_sample:vertices" % rep, lambda: "triangle corners missing from .vertices")
+    v.ok(tv <= uv, "%s.up_sample:vertices%s" % (rep, sfx), lambda: "triangle corners missing from .vertices")
     return dup
 
 
@@ -365,28 +380,29 @@ def check_neighborhood(v, rep, parents, nb, tol, lattice):
     return dup
 
 
-def check_for_indexes(v, rep, obj, tris, selections, tol):
+def check_for_indexes(v, rep, obj, tris, selections, tol, sfx=""):
     N = len(tris)
+    rep = "%s.for_indexes%s" % (rep, sfx)
     for sel in selections:
         idx = np.array(sel, dtype=int)
         got = tris_of(obj.for_indexes(idx))
         want = tris[idx] if len(idx) else np.zeros((0, 3, 2))
         if got.shape == want.shape and np.array_equal(got, want):
-            v.ok(True, "%s.for_indexes" % rep)
+            v.ok(True, rep)
             continue
         if got.shape != want.shape:
-            v.fail("%s.for_indexes" % rep, "selection %s of %d: got %d triangles, want %d" % (list(sel), N, len(got), len(want)))
+            v.fail(rep, "selection %s of %d: got %d triangles, want %d" % (list(sel), N, len(got), len(want)))
             continue
         ids = cluster_ids([want, got], tol)
         if ids is None:
-            v.fail("%s.for_indexes" % rep, "selection %s: non-finite vertices" % (list(sel),))
+            v.fail(rep, "selection %s: non-finite vertices" % (list(sel),))
             continue
         wk, gk = tri_keys(ids[0]), tri_keys(ids[1])
         if sorted(wk) != sorted(gk):
-            v.fail("%s.for_indexes" % rep, "selection %s of %d: returned %s, selected %s"
+            v.fail(rep, "selection %s of %d: returned %s, selected %s"
                    % (list(sel), N, np.round(got, 6).tolist()[:3], np.round(want, 6).tolist()[:3]))
         else:
-            v.ok(wk == gk, "%s.for_indexes:order" % rep, "selection %s: right triangles, different order" % (list(sel),))
+            v.ok(wk == gk, rep + ":order", "selection %s: right triangles, different order" % (list(sel),))
 
 
 def selections_small(N):
@@ -494,7 +510,66 @@ def check_shapes(v, arr, coord, tris, side, seed):
                     gc = np.asarray(coord.containing_indices(shp))
                     v.ok(gc.shape == got.shape and np.array_equal(gc, got), "coord.containing_indices:differs-from-array",
                          lambda: "%s at %s: coordinate representation reports %s, vertex-array representation %s" % (name, ref, gc, got))
+    check_anchored_squares(v, S, arr, coord, tris, side)
     return n_in, n_out, n_undecided
+
+
+# half extents (first component, second component) in units of the side length: comparable to the triangle size, so that
+# the centroid of the containing triangle may lie outside the square while centroids of its neighbours lie inside
+SQUARE_HALF = [(0.52, 0.52), (0.45, 0.65), (0.65, 0.45)]
+EDGE_HALF = (0.2, 0.35)
+MAX_ANCHORS = 9
+
+
+def anchored_squares(tris, side):
+    """(centre, half extents, kind) of squares whose centre lies strictly inside an anchor triangle (smallest barycentric
+    coordinate 0.02 >> MARGIN), close to one of its vertices or to the middle of one of its edges."""
+    N = len(tris)
+    anchors = list(range(N)) if N <= MAX_ANCHORS else sorted({int(round(q * (N - 1) / (MAX_ANCHORS - 1.0))) for q in range(MAX_ANCHORS)})
+    out = []
+    for k in anchors:
+        t = np.asarray(tris[k], float)
+        g = t.mean(axis=0)
+        for j in range(3):
+            p = t[j] + 0.06 * (g - t[j])
+            for (h0, h1) in SQUARE_HALF:
+                out.append(((float(p[0]), float(p[1])), (h0 * side, h1 * side), "near-vertex"))
+            m = 0.5 * (t[j] + t[(j + 1) % 3])
+            p = m + 0.06 * (g - m)
+            h0, h1 = EDGE_HALF if j % 2 == 0 else EDGE_HALF[::-1]
+            out.append(((float(p[0]), float(p[1])), (h0 * side, h1 * side), "near-edge"))
+    return out
+
+
+def check_anchored_squares(v, S, arr, coord, tris, side):
+    N = len(tris)
+    sq = anchored_squares(tris, side)
+    if not sq:
+        return
+    mbs = min_bary([c for c, _, _ in sq], tris)
+    for q, ((px, py), (h0, h1), kind) in enumerate(sq):
+        mb = mbs[q]
+        must = set(np.flatnonzero(mb > MARGIN).tolist())
+        shp = S.Square(top=py - h1, bottom=py + h1, left=px - h0, right=px + h0)
+        got = np.asarray(arr.containing_indices(shp))
+        good = got.ndim == 1 and got.dtype.kind in "iu" and (len(got) == 0 or (
+            got.min() >= 0 and got.max() < N and len(set(got.tolist())) == len(got)))
+        v.ok(good, "containing_indices:Square:index-range", lambda: "indices %s for %d triangles" % (got, N))
+        if not good:
+            continue
+        gs = set(got.tolist())
+        cls = "Square"
+        if not must <= gs:
+            gp = np.asarray(arr.containing_indices(S.Point(px, py)))
+            if not must <= set(gp.tolist()):
+                cls = "Point"
+        v.ok(must <= gs, "containing_indices:%s" % cls,
+             lambda: "square centre %s (%s, half extents %s) strictly inside triangle(s) %s = %s but reported %s"
+             % ((px, py), kind, (h0, h1), sorted(must - gs), np.round(tris[sorted(must - gs)[0]], 6).tolist(), sorted(gs)))
+        if coord is not None and q % 4 == 0:
+            gc = np.asarray(coord.containing_indices(shp))
+            v.ok(gc.shape == got.shape and np.array_equal(gc, got), "coord.containing_indices:differs-from-array",
+                 lambda: "Square at %s: coordinate representation reports %s, vertex-array representation %s" % ((px, py), gc, got))
 
 
 # --------------------------------------------------------------------------------------------- case runners
@@ -572,6 +647,190 @@ def examine_coord(v, T, side, seed, depth, small_sel):
     return N, len(tris_of(nb)), dupn, dups
 
 
+# --------------------------------------------------------------------------------------------- array representation
+
+
+def int_lattice_set(w, h, ox, oy, bits):
+    """The window's triangle set on an integer vertex lattice (first unit = half a side, second unit = half a height),
+    written out directly: -> (vertices (V,2) int64, indices (N,3)).  Vertices are listed in reverse sorted order so that
+    the set is not already in the order np.unique would produce."""
+    rows = []
+    for (cx, cy) in window_coords(w, h, ox, oy, bits).tolist():
+        f = 1 if (cx + cy) % 2 == 0 else -1
+        rows += [(cx, 2 * cy + f), (cx + f, 2 * cy - f), (cx - f, 2 * cy - f)]
+    uniq = sorted(set(rows), reverse=True)
+    pos = {p: i for i, p in enumerate(uniq)}
+    return np.array(uniq, dtype=np.int64).reshape(-1, 2), np.array([pos[p] for p in rows], dtype=np.int64).reshape(-1, 3)
+
+
+INT_MAPS = [  # integer linear map + integer shift of the vertex lattice (both keep many odd coordinate sums)
+    (np.array([[1, 0], [0, 1]]), np.array([0, 0])),
+    (np.array([[3, 1], [-1, 2]]), np.array([-5, 7])),
+]
+DTYPES = [("int64", np.int64, 0), ("int32", np.int32, 0), ("float32", np.float32, 0), ("int64", np.int64, 1)]
+
+
+def gather(vx, ix):
+    """(N,3,2) float triangles of an index table, by explicit loops."""
+    return np.array([[[float(vx[i][0]), float(vx[i][1])] for i in row] for row in ix], float).reshape(-1, 3, 2)
+
+
+def children_match(parents, up, tol):
+    ids = cluster_ids([ref_children(parents), tris_of(up)], tol)
+    return ids is not None and set(tri_keys(ids[0])) == set(tri_keys(ids[1]))
+
+
+def check_dtypes(v, ArrayTriangles, S, vx, ix):
+    """(D) vertex arrays of integer dtype (and integer-valued float32: every midpoint is exact in float32 as well)."""
+    N = len(ix)
+    nv0 = len(v.violations)
+    for dname, dt, mi in DTYPES:
+        m, sh = INT_MAPS[mi]
+        vi = vx @ m.T + sh  # int64
+        parents = gather(vi, ix)
+        tol = REL * min_edge(parents)
+        sfx = ":int-dtype" if dname.startswith("int") else ":float32"
+        A = ArrayTriangles(indices=ix.copy(), vertices=vi.astype(dt))
+        t = np.asarray(A.triangles)
+        v.ok(t.shape == parents.shape and np.array_equal(t.astype(float), parents), "array.triangles" + sfx,
+             lambda: "%s vertices: .triangles differs from vertices[indices]" % dname)
+        check_area_property(v, "array", A, parents)
+        up = A.up_sample()
+        check_up_sample(v, "array", parents, up, tol, False, sfx)
+        v.ok(rel_close(up.area, shoelace(parents).sum()), "array.up_sample:area" + sfx,
+             lambda: "%s vertices: reported area %r -> %r" % (dname, float(shoelace(parents).sum()), up.area))
+        check_for_indexes(v, "array", A, parents, [(N - 1,), (0, N - 1)[: min(N, 2)]], tol, sfx)
+        g = parents.mean(axis=1)
+        for k in (0, N - 1):
+            got = np.asarray(A.containing_indices(S.Point(float(g[k, 0]), float(g[k, 1]))))
+            v.ok(k in set(got.tolist()), "containing_indices:Point" + sfx,
+                 lambda: "%s vertices: centroid of triangle %d %s reported in %s" % (dname, k, parents[k].tolist(), got))
+    if len(v.violations) > nv0:
+        # control, only after a failure: the same sets as float64 vertex arrays.  If those fail too the defect is not
+        # about the dtype: re-file under the plain ids
+        nv1 = len(v.violations)
+        for mi in (0, 1):
+            m, sh = INT_MAPS[mi]
+            vi = vx @ m.T + sh
+            parents = gather(vi, ix)
+            check_up_sample(v, "array", parents, ArrayTriangles(indices=ix.copy(), vertices=vi.astype(float)).up_sample(),
+                            REL * min_edge(parents), False)
+        if len(v.violations) > nv1:
+            for d in v.violations[nv0:nv1]:
+                d["finding"] = d["finding"].replace(":int-dtype", "").replace(":float32", "")
+
+
+READS = ["triangles", "area", "containing_indices", "len", "means", "up_sample", "neighborhood", "for_indexes", "iter", "all"]
+
+
+def do_read(A, S, name, pt):
+    if name in ("triangles", "all"):
+        A.triangles
+    if name in ("area", "all"):
+        A.area
+    if name in ("containing_indices", "all"):
+        A.containing_indices(S.Point(pt[0], pt[1]))
+        A.containing_indices(S.Square(top=pt[1] - 0.5, bottom=pt[1] + 0.5, left=pt[0] - 0.5, right=pt[0] + 0.5))
+    if name in ("len", "all"):
+        len(A)
+    if name in ("means", "all"):
+        A.means
+    if name in ("up_sample", "all"):
+        A.up_sample()
+    if name in ("neighborhood", "all"):
+        A.neighborhood()
+    if name in ("for_indexes", "all"):
+        A.for_indexes(np.array([0]))
+    if name in ("iter", "all"):
+        list(A)
+        str(A)
+
+
+def describes(v, S, B, vx, ix, fid, what, start, deep):
+    """Every observable of the set B describes the triangles vx[ix]; observables are visited starting from `start`.
+    deep: None = triangles and area only; False = + containing_indices, len, means; True = + up_sample."""
+    want = gather(vx, ix)
+    N = len(ix)
+    g = want.mean(axis=1)
+    tol = REL * min_edge(want)
+    ok = True
+
+    def o_tri():
+        t = np.asarray(B.triangles, float)
+        return v.ok(t.shape == want.shape and np.array_equal(t, want), fid,
+                    lambda: "%s: .triangles differs from vertices[indices] of the vertices it was given by %s" % (what, dom.maxdiff(t, want)))
+
+    def o_area():
+        a, w_ = float(B.area), float(shoelace(want).sum())
+        return v.ok(rel_close(a, w_), fid, lambda: "%s: .area=%r, triangles of the vertices it was given have area %r" % (what, a, w_))
+
+    def o_cont():
+        good = True
+        for k in (0, N - 1):
+            got = np.asarray(B.containing_indices(S.Point(float(g[k, 0]), float(g[k, 1]))))
+            good &= v.ok(k in set(got.tolist()), fid,
+                         lambda: "%s: centroid of its triangle %d = %s not contained, containing_indices -> %s" % (what, k, want[k].tolist(), got))
+        return good
+
+    def o_len():
+        m = np.asarray(B.means, float)
+        return v.ok(len(B) == N and m.shape == g.shape and bool(np.allclose(m, g, rtol=0.0, atol=1e-12 * max(1.0, float(np.abs(g).max())))), fid,
+                    lambda: "%s: len=%d (want %d) or .means differ by %s" % (what, len(B), N, dom.maxdiff(m, g)))
+
+    def o_up():
+        return v.ok(children_match(want, B.up_sample(), tol), fid, lambda: "%s: up_sample() is not the midpoint subdivision of its triangles" % what)
+
+    obs = [o_tri, o_area] if deep is None else [o_tri, o_area, o_cont, o_len] + ([o_up] if deep else [])
+    for q in range(len(obs)):
+        ok &= bool(obs[(start + q) % len(obs)]())
+    return ok
+
+
+def check_read_then_derive(v, ArrayTriangles, S, vx, ix, seed):
+    """(E) histories on ONE ArrayTriangles: read an observable, then derive (with_vertices / for_indexes); the derived set
+    must describe the vertices it was given, the parent must still describe its own."""
+    N = len(ix)
+    v1 = vx.astype(float) * np.array([0.5, 0.5 * 3 ** 0.5 / 2])  # the unit equilateral lattice
+    m, sh = affine_menu(seed)[1]
+    v2 = v1 @ m.T + sh
+    v3 = v1 @ np.array([[0.7, -1.1], [0.9, 0.4]]).T + np.array([2.0, -3.0])
+    t1 = gather(v1, ix)
+    pt = t1[0].mean(axis=0)
+    sel = np.array([N - 1, 0][: min(N, 2)])
+    fid = "array.with_vertices:after-reads"
+    nv0 = len(v.violations)
+    for r, name in enumerate(READS):
+        A = ArrayTriangles(indices=ix.copy(), vertices=v1.copy())
+        do_read(A, S, name, pt)
+        deep = name in ("triangles", "up_sample", "all")
+        B = A.with_vertices(v2.copy())
+        describes(v, S, B, v2, ix, fid, "with_vertices after reading %s" % name, r, deep)
+        describes(v, S, A, v1, ix, fid + ":parent", "the parent set after with_vertices (read before: %s)" % name, r + 1, None)
+        # B has now been read: derive again from it
+        C = B.with_vertices(v3.copy())
+        describes(v, S, C, v3, ix, fid, "with_vertices on a set that was itself derived and read (first read: %s)" % name, r + 2, False)
+        D = B.for_indexes(sel)
+        want = gather(v2, ix)[sel]
+        got = tris_of(D)
+        v.ok(got.shape == want.shape and np.array_equal(got, want), "array.for_indexes:after-reads",
+             lambda: "for_indexes(%s) on a derived and read set (first read: %s): differs by %s" % (sel.tolist(), name, dom.maxdiff(got, want)))
+        if name == "all":
+            check_for_indexes(v, "array", A, t1, [(0,), tuple(sel.tolist()), tuple(range(N))], REL, ":after-reads")
+    if len(v.violations) > nv0:
+        # control, only after a failure: no read before deriving.  If that fails as well, history is not the cause
+        nv1 = len(v.violations)
+        A = ArrayTriangles(indices=ix.copy(), vertices=v1.copy())
+        B = A.with_vertices(v2.copy())
+        describes(v, S, B, v2, ix, "array.with_vertices", "with_vertices on a fresh set", 0, True)
+        got = tris_of(ArrayTriangles(indices=ix.copy(), vertices=v2.copy()).for_indexes(sel))
+        v.ok(np.array_equal(got, gather(v2, ix)[sel]), "array.for_indexes", "for_indexes on a fresh set")
+        bad = {d["finding"] for d in v.violations[nv1:]}
+        for d in v.violations[nv0:nv1]:
+            for plain in ("array.with_vertices", "array.for_indexes"):
+                if ID + ":" + plain in bad and d["finding"].startswith(ID + ":" + plain + ":after-reads"):
+                    d["finding"] = ID + ":" + plain
+
+
 def is_nontrivial(tr, tol, axis=1):
     if len(tr) < 2:
         return False
@@ -598,6 +857,16 @@ def run_case(case):
         N, K, dupn, dups = examine_coord(v, T, side, seed, depth=2, small_sel=True)
         v.nontrivial = is_nontrivial(tris_of(T), REL * side)
         v.outcome = "coord:N%d:nb%d:arraydup%d%d" % (N, K, dupn, dups)
+    elif kind == "arrep":
+        from autoarray.structures.triangles import shape as S
+
+        _, w, h, ox, oy, bits, seed = case
+        vx, ix = int_lattice_set(w, h, ox, oy, bits)
+        check_dtypes(v, ArrayTriangles, S, vx, ix)
+        check_read_then_derive(v, ArrayTriangles, S, vx, ix, seed)
+        tr = gather(vx, ix)
+        v.nontrivial = is_nontrivial(tr, 1e-9)
+        v.outcome = "arrep:N%d:V%d" % (len(ix), len(vx))
     elif kind == "shape":
         _, w, h, ox, oy, bits, fl, side, xo, yo, seed = case
         T = CoordinateArrayTriangles(coordinates=window_coords(w, h, ox, oy, bits), side_length=side,
